@@ -44,7 +44,8 @@ LEVEL_TEXT = ("Seeded search over thread interleavings at the granularity the qu
               "scheduled run against the sequential execution of the same script: no call "
               "raises, the run terminates (no deadlock, step cap), load results equal the reference, "
               "repeated loads return the same object until refresh, failed fetches leave the cache "
-              "untouched, no loader is left alive at quiescence.")
+              "untouched, no loader is left alive at quiescence. Two TemplateHandler instances and the global "
+              "terminology table share one cache directory and, per class, one loading table.")
 LEVEL_NOTE = ("file-level races inside cache_load (one thread truncating the cache file another parses) "
               "are outside the stated granularity; clock jumps and source changes happen only at "
               "quiescent points so that schedule dependence is never legitimate; not exhaustive: the "
